@@ -48,6 +48,12 @@ Judge(e) ==
          LET exp == [lo \in 1..256 |-> <<Enc(e.shape, <<lo - 1, e.hi>>), <<lo - 1, e.hi>>, 2>>] IN
          Verdict(<< <<e.outs = exp, "fixb">> >>,
                  [first_bad |-> IF e.outs = exp THEN 0 ELSE CHOOSE b \in 1..256 : Len(e.outs) < b \/ e.outs[b] # exp[b]])
+    [] e.op = "rtt" ->           \* a concrete Rust type: the value given and the value decoded as serde call trees
+         IF Has(e, "err") THEN Verdict(<< <<FALSE, "enc">>, <<FALSE, "rt">> >>, [err |-> e.err])
+         ELSE LET b == EncTree(e.tree) IN
+              Verdict(<< <<e.bytes = b, "enc">>,
+                         <<e.decoded_tree = e.tree /\ e.used = (IF e.dec = "from_bytes" THEN -1 ELSE Len(e.bytes)), "rt">> >>,
+                      [bytes |-> b])
     [] e.op = "seqhdr" ->
          LET c == Canon(BitsOfBytes(e.n, 64), 64) IN
          Verdict(<< <<e.bytes = c /\ e.err = "SerCustom", "seqhdr">> >>, [bytes |-> c, err |-> "SerCustom"])
